@@ -4,7 +4,7 @@ import common, zoo as zoolib, filelevel, workloads, iocommon
 from common import Pair, proof_stage, rebuild_tools, build_pqh, build_zoo, Lock, TRUSTED_BASE
 
 MODULE = "PQ.Props.C11"
-THEOREMS = ["PQ.C11." + t for t in ("truncated_rejected_partial", "short_rejected", "no_trailing_magic_rejected", "drop_take_prefix")]
+THEOREMS = ["PQ.C11." + t for t in ("truncated_rejected_partial", "short_rejected", "no_trailing_magic_rejected", "drop_take_prefix", "accepted_has_trailer", "truncated_rejected_unless_trailer")]
 
 
 def expand(rle):
